@@ -240,6 +240,8 @@ def evaluate(case, ctx):
             return viols
         raise engine.Discard("reference-run-failed")
     viols += judge(case, ref, "serial")
+    if any(v["clause"] == "output-unreadable" for v in viols):
+        raise engine.Discard("serial-output-malformed")  # per-read defect, not this property
     par = C.run_parallel(case, ctx, files)
     hv = C.hang_violations(par, "par")
     if hv:
